@@ -67,8 +67,10 @@ Compare(op, a, b) ==
 \* SQL truth: only a TRUE boolean is true
 IsTrue(x) == x.k = "bool" /\ x.v = TRUE
 
-UpperC(c) == CASE c = "a" -> "A" [] c = "b" -> "B" [] c = "c" -> "C" [] c = "x" -> "X" [] c = "z" -> "Z" [] OTHER -> c
-LowerC(c) == CASE c = "A" -> "a" [] c = "B" -> "b" [] c = "C" -> "c" [] c = "X" -> "x" [] c = "Z" -> "z" [] OTHER -> c
+LowerAlpha == <<"a","b","c","d","e","f","g","h","i","j","k","l","m","n","o","p","q","r","s","t","u","v","w","x","y","z">>
+UpperAlpha == <<"A","B","C","D","E","F","G","H","I","J","K","L","M","N","O","P","Q","R","S","T","U","V","W","X","Y","Z">>
+UpperC(c) == IF \E i \in 1..26 : LowerAlpha[i] = c THEN UpperAlpha[CHOOSE i \in 1..26 : LowerAlpha[i] = c] ELSE c
+LowerC(c) == IF \E i \in 1..26 : UpperAlpha[i] = c THEN LowerAlpha[CHOOSE i \in 1..26 : UpperAlpha[i] = c] ELSE c
 Floor(a) == IF a.n >= 0 THEN a.n \div a.d ELSE -((-a.n + a.d - 1) \div a.d)
 Ceil(a)  == -Floor(Rat(-a.n, a.d))
 
